@@ -668,6 +668,9 @@ class IteratorQueue(IterableQueue[_ValueT]):
           result.append(self.get_nowait())
           logging.debug('chainable: %s', 'dequeued one')
         except (queue.Empty, asyncio.QueueEmpty) as e:
+          if e is self._exception:
+            # The enqueuer failed with this very error: not an empty buffer.
+            raise
           if (not block and result) or (
               block and max_batch_size and len(result) == max_batch_size
           ):
@@ -714,6 +717,9 @@ class IteratorQueue(IterableQueue[_ValueT]):
           )
           return value
         except (queue.Empty, asyncio.QueueEmpty) as e:
+          if e is self._exception:
+            # The enqueuer failed with this very error: not an empty buffer.
+            raise
           logging.debug(
               'chainable: %s', f'"{self.name}" dequeue empty, waiting'
           )
